@@ -289,10 +289,16 @@ func onlyBytes(fm *Frame) error {
 		}
 		close(valuesDone)
 	}()
-	// Make sure the goroutine has finished before returning.
-	defer func() { <-valuesDone }()
-
 	_, err := io.Copy(fm.ByteOutput(), fm.InputFile())
+	if _, gone := err.(errs.ReaderGone); gone {
+		// The reader is gone, so the bytes are no longer read. Waiting for
+		// the value-discarding goroutine here would wait for the upstream
+		// writer to finish, which may itself be blocked writing bytes nobody
+		// reads (a deadlock). The goroutine ends once the upstream finishes.
+		return err
+	}
+	// Make sure the goroutine has finished before returning.
+	<-valuesDone
 	return err
 }
 
@@ -304,17 +310,20 @@ func onlyValues(fm *Frame) error {
 		_, _ = io.Copy(blackholeWriter{}, fm.InputFile())
 		close(bytesDone)
 	}()
-	// Wait for the goroutine to finish before returning.
-	defer func() { <-bytesDone }()
-
 	// Forward values.
 	out := fm.ValueOutput()
 	for v := range fm.InputChan() {
 		err := out.Put(v)
 		if err != nil {
+			// The reader is gone and the values are no longer read. Do not
+			// wait for the byte-discarding goroutine: it ends only when the
+			// upstream writer finishes, which may be blocked writing values
+			// nobody reads (a deadlock).
 			return err
 		}
 	}
+	// Wait for the goroutine to finish before returning.
+	<-bytesDone
 	return nil
 }
 
